@@ -163,7 +163,7 @@ impl Prop for C06 {
                         2 => RowForm::Cols,
                         _ => RowForm::ColsOpen,
                     };
-                    RowProg { cells, form }
+                    RowProg { cells, form, offers: vec![] }
                 })
                 .collect();
             sets.push((cols, rows));
